@@ -79,7 +79,7 @@ def main():
         }],
         "checks": checks,
         "not_applicable": [{"property_id": k, "reason": v} for k, v in sorted(NA.items()) if k not in CLAIMED],
-        "notes": "Exit codes of every command: 0 held on everything explored (KNOWN-FINDING lines possible), 1 with VIOLATION property=<id> replay=<path>, 2 infrastructure (build, self-test, watchdog, vacuous batch). VERIF_SEED overrides the base seed; VERIF_RUNS / VERIF_WORKERS / VERIF_MAXWALL_S tune a batch. Genuine defects found and repaired are listed in /verif/known_findings.json.",
+        "notes": "Besides the per-run dimensions named in each check's text, every check also exercises (since the seeded-change waves of DESIGN.md section 14): results handed out earlier must not change under later calls; callers overwrite what they were given; the same adapter/accumulator/tracker/buffer is re-used after refusals and errors; other instances are alive in the same process; rare stress runs reach sizes where 8/16/32-bit counters wrap (C05, C07, C10, C16, C17, C18). Exit codes of every command: 0 held on everything explored (KNOWN-FINDING lines possible), 1 with VIOLATION property=<id> replay=<path>, 2 infrastructure (build, self-test, watchdog, vacuous batch). VERIF_SEED overrides the base seed; VERIF_RUNS / VERIF_WORKERS / VERIF_MAXWALL_S tune a batch. Genuine defects found and repaired are listed in /verif/known_findings.json.",
     }
     json.dump(m, open("/verif/MANIFEST.json", "w"), indent=1)
     print("wrote MANIFEST.json with", len(checks), "checks,", len(m["not_applicable"]), "n/a")
